@@ -138,7 +138,7 @@ def grid_shard(shard, cases):
 
 
 def store_strategy():
-    return store_program(etag_rate=1, with_cards=False)
+    return store_program(etag_rate=1, with_cards=True)
 
 
 def main(tier, seed):
